@@ -1,7 +1,9 @@
 import Sq.Proto
+import Sq.ProtoEval
 open Sq Sq.Proto
 
 def handle (line : String) : String :=
+  if line.startsWith "EVAL " then evalCmd (line.drop 5).toString else
   match line.splitOn " " with
   | ["LEX", h] => match unhex h with
     | some s => lexCmd s
